@@ -1,5 +1,6 @@
 import RPVerif.Lemmas.Sched
 import RPVerif.Lemmas.NodeList
+import RPVerif.Lemmas.SchedRun
 
 /-!
 # C03 — Released resources come back exactly once and completely
@@ -107,5 +108,80 @@ open RPVerif.NodeList in
     GPUs, storage and memory (for every node state and every slot) -/
 theorem C03_nodelist_release_inverse (n : ANode) (s : ASlot) : deallocate (allocate n s) s = n :=
   deallocate_allocate n s
+
+/-! ## whole histories of the scheduling loop -/
+
+/-- **the node map shows exactly what is held, after every history**: a core (GPU) is BUSY iff a
+    held placement names it or it was BUSY to begin with; everything else is as in the initial map -/
+theorem C03_history_map (c : Cfg) (nodes0 : List NodeSt) (its : List Iter) (hw : NodesWF nodes0) (hnn : NonNeg nodes0)
+    (hok : RunOK c { nodes := nodes0 } true its) (i : Nat) (n0 n : NodeSt)
+    (h0 : nodes0[i]? = some n0) (hn : (runLoop c { nodes := nodes0 } true its []).1.nodes[i]? = some n) :
+    n.index = n0.index
+    ∧ (∀ x, n.cores[x]? = if x ∈ coresOn (heldSlots (runLoop c { nodes := nodes0 } true its []).1.held) n0.index
+                           then some Occ.busy else n0.cores[x]?)
+    ∧ (∀ g, n.gpus[g]? = if g ∈ gpusOn (heldSlots (runLoop c { nodes := nodes0 } true its []).1.held) n0.index
+                          then some Occ.busy else n0.gpus[g]?)
+    ∧ n.lfs = n0.lfs - (lfsOn (heldSlots (runLoop c { nodes := nodes0 } true its []).1.held) n0.index : Nat)
+    ∧ n.mem = n0.mem - (memOn (heldSlots (runLoop c { nodes := nodes0 } true its []).1.held) n0.index : Nat) := by
+  have hinit : SInv nodes0 ({ nodes := nodes0 } : SchedSt) := ⟨hinv_init nodes0 hw hnn, rfl⟩
+  have hinv := runLoop_inv c nodes0 its _ true [] hinit hok
+  have ni := hinv.1.node i n0 n h0 hn
+  refine ⟨ni.idx, ?_, ?_, ni.lfs, ni.mem⟩
+  · intro x
+    by_cases hx : x ∈ coresOn (heldSlots (runLoop c { nodes := nodes0 } true its []).1.held) n0.index
+    · rw [if_pos hx]; exact nodeinv_core_busy n0 n _ ni x hx
+    · rw [if_neg hx]; exact nodeinv_core_other n0 n _ ni x hx
+  · intro g
+    by_cases hg : g ∈ gpusOn (heldSlots (runLoop c { nodes := nodes0 } true its []).1.held) n0.index
+    · rw [if_pos hg]; exact nodeinv_gpu_busy n0 n _ ni g hg
+    · rw [if_neg hg]; exact nodeinv_gpu_other n0 n _ ni g hg
+
+/-- **capacity is restored**: after any history, once every placement the scheduler made has been
+    released, the node map (cores, GPUs, storage, memory of every node) is the initial one and the
+    counter of active tasks is zero -/
+theorem C03_history_restored (c : Cfg) (nodes0 : List NodeSt) (its : List Iter) (hw : NodesWF nodes0) (hnn : NonNeg nodes0)
+    (hok : RunOK c { nodes := nodes0 } true its)
+    (hq : (runLoop c { nodes := nodes0 } true its []).1.held = []) :
+    (runLoop c { nodes := nodes0 } true its []).1.nodes = nodes0
+    ∧ (runLoop c { nodes := nodes0 } true its []).1.activeCnt = 0 := by
+  have hinit : SInv nodes0 ({ nodes := nodes0 } : SchedSt) := ⟨hinv_init nodes0 hw hnn, rfl⟩
+  have hinv := runLoop_inv c nodes0 its _ true [] hinit hok
+  generalize (runLoop c { nodes := nodes0 } true its []).1 = s at hinv hq
+  obtain ⟨hI, hc⟩ := hinv
+  refine ⟨?_, by rw [hc, hq]; rfl⟩
+  apply ext_getElem?
+  intro i
+  cases hn : s.nodes[i]? with
+  | none =>
+    have : nodes0[i]? = none := by
+      rw [List.getElem?_eq_none_iff] at hn ⊢; rw [← hI.len]; exact hn
+    rw [this]
+  | some n =>
+    have hlt : i < nodes0.length := by rw [← hI.len]; exact (List.getElem?_eq_some_iff.mp hn).1
+    have h0 : nodes0[i]? = some nodes0[i] := getElem?_eq_getElem hlt
+    have ni := hI.node i _ n h0 hn
+    rw [hq] at ni
+    rw [h0]
+    have e1 := ni.idx
+    have e2 := ni.cores
+    have e3 := ni.gpus
+    have e4 := ni.lfs
+    have e5 := ni.mem
+    have z1 : coresOn (heldSlots []) (nodes0[i]).index = [] := rfl
+    have z2 : gpusOn (heldSlots []) (nodes0[i]).index = [] := rfl
+    have z3 : lfsOn (heldSlots []) (nodes0[i]).index = 0 := rfl
+    have z4 : memOn (heldSlots []) (nodes0[i]).index = 0 := rfl
+    rw [z1] at e2; rw [z2] at e3; rw [z3] at e4; rw [z4] at e5
+    cases n with
+    | mk idx cs gs l m =>
+      cases hnode : nodes0[i] with
+      | mk idx0 cs0 gs0 l0 m0 =>
+        rw [hnode] at e1 e2 e3 e4 e5
+        simp only [foldSet, foldl_nil] at e2 e3
+        simp only at e1 e2 e3 e4 e5
+        subst e1; subst e2; subst e3
+        have hl : l = l0 := by omega
+        have hm : m = m0 := by omega
+        rw [hl, hm]
 
 end RPVerif.C03
